@@ -10,6 +10,7 @@ CONSTANTS
   Eager = TRUE
   ArmInFlush = TRUE
   WakeAfterPush = TRUE
+  Overflow = FALSE
   MaxLen = 80
   LateRounds = 0
 SPECIFICATION GSpec
